@@ -1136,7 +1136,35 @@ def _kmpc_static_init(s, args, ins):
     return None
 
 
+def _kmpc_dispatch_init(s, args, ins):
+    # dynamic / guided schedules distribute whole iterations too: the single abstract thread receives the full range once
+    loc, gtid, sched, lb, ub, st, chunk = args
+    if not hasattr(s, '_dispatch'):
+        s._dispatch = []
+    s._dispatch.append([lb, ub, st, False])
+    return None
+
+
+def _kmpc_dispatch_next(s, args, ins):
+    loc, gtid, plast, plower, pupper, pstride = args
+    sz = 8 if ins is None or '_8' in ins.text else 4
+    d = s._dispatch[-1]
+    if d[3]:
+        s._dispatch.pop()
+        return 0
+    d[3] = True
+    s.store_cell(plower, d[0], sz)
+    s.store_cell(pupper, d[1], sz)
+    s.store_cell(pstride, d[2], sz)
+    s.store_cell(plast, 1, 4)
+    return 1
+
+
 BUILTINS.update({
+    '__kmpc_dispatch_init_8u': _kmpc_dispatch_init, '__kmpc_dispatch_init_8': _kmpc_dispatch_init,
+    '__kmpc_dispatch_init_4u': _kmpc_dispatch_init, '__kmpc_dispatch_init_4': _kmpc_dispatch_init,
+    '__kmpc_dispatch_next_8u': _kmpc_dispatch_next, '__kmpc_dispatch_next_8': _kmpc_dispatch_next,
+    '__kmpc_dispatch_next_4u': _kmpc_dispatch_next, '__kmpc_dispatch_next_4': _kmpc_dispatch_next,
     '__kmpc_fork_call': _kmpc_fork_call,
     '__kmpc_for_static_init_8u': _kmpc_static_init, '__kmpc_for_static_init_8': _kmpc_static_init,
     '__kmpc_for_static_init_4u': _kmpc_static_init, '__kmpc_for_static_init_4': _kmpc_static_init,
